@@ -1253,6 +1253,23 @@ def rule_regdeliv1(ctx: Ctx) -> RuleResult:
               f"`{r}` is rebuilt (`{norm(fresh[0].value)[:50]}`) before it is configured" if ok else
               f"`{r}` is not freshly built on every path before `{norm(n)[:40]}`: it can still be the default registry or the "
               f"one configured by an earlier parse", n.lineno)
+    # the private registry shares no container with the default one: whatever is taken over from it is copied
+    for f in funcs:
+        for n in walk_no_nested(f.node):
+            if isinstance(n, (ast.Assign, ast.AnnAssign)) and getattr(n, "value", None) is not None:
+                tg = n.targets[0] if isinstance(n, ast.Assign) else n.target
+                if isinstance(tg, ast.Attribute) and isinstance(tg.value, ast.Attribute) and norm(tg.value) in recvs:
+                    rr.instances += 1
+                    v = n.value
+                    copies = isinstance(v, ast.Call) and norm(v.func) in ("set", "list", "dict", "tuple", "frozenset", "copy.copy",
+                                                                          "copy.deepcopy", "deepcopy", "sorted")
+                    from_default = any(isinstance(x, ast.Name) and x.id == "registry" for x in ast.walk(v))
+                    ok = copies or not from_default
+                    rr.ob(f.relpath, f.qualname, norm(n)[:80], "containers of the default registry are copied, not shared, when "
+                          "the private registry is set up", DISCHARGED if ok else VIOLATED,
+                          "copied" if ok else
+                          f"`{norm(v)[:40]}` is the default registry's own container: removing a type for this command line removes "
+                          f"it (and its replace pairs) from the process-wide registry", n.lineno)
     # delivery
     rr.instances += 1
     run = prog.func(CLI, "Cli.run")
